@@ -95,6 +95,11 @@ def rejection_shapes(w, cn, kind):
             if ("('index', ('in', 'bytes')" in rn or "('len', ('in', 'bytes'))" in rn) and "call" not in rn:
                 continue                # a test of the supplied encoding itself (length / format tag), not of the key:
                                         # what encode() emits satisfies it when R08.1b (encode∘decode identity) holds
+            pin = pin_of(n, g["value"], g.get("arms"))
+            if pin is not None and isinstance(pin[0], tuple) and pin[0] and pin[0][0] == "call":
+                # `x == k` / `x != k` / `match x { k => .. }`: one test, whatever the spelling and the edge
+                out[repr(("pin", _shape(pin[0]), pin[1]))] = fmt_n(n)[:160]
+                continue
             out[repr(_shape(n))] = fmt_n(n)[:160]
     return f, out
 
